@@ -539,6 +539,10 @@ func (al *ListLiteral) String() string {
 
 type Ident struct {
 	Name string
+	// Local is set by the parser if the name refers to a local binding: an
+	// argument, a variable declared by let or func, or a captured outer value.
+	// Such a binding hides a static function of the same name.
+	Local bool
 	Line
 }
 
@@ -1203,11 +1207,11 @@ func (p *Parser[V]) parseLiteral(tokenizer *Tokenizer, idents Identifiers[V]) (A
 					} else if i.ThisName != "" {
 						return &MapAccess{
 							Key:      name,
-							MapValue: &Ident{Name: i.ThisName, Line: t.Line},
+							MapValue: &Ident{Name: i.ThisName, Local: true, Line: t.Line},
 							Line:     t.Line,
 						}, nil
 					} else {
-						return &Ident{Name: name, Line: t.Line}, nil
+						return &Ident{Name: name, Local: true, Line: t.Line}, nil
 					}
 				}
 			}
